@@ -41,6 +41,8 @@ CHECKS = {
          "split: n<=4 rows (quick) / n<=5 (thorough), symbolic percentage and seed, every permutation; convert: n<=3 / n<=4 samples, three formats", "4 C18"),
  "C19": ("symbolic execution (z3) of save -> real pickle -> load -> predict on symbolically fitted twin models (symbolic scalars pickle their SMT term); loaded vs saved state compared term by term; plus concrete round trips of all 47 metrics x 4 models on the real package",
          "4 model kinds x 2 weight branches, 3 (thorough: 4) training samples, one symbolic query", "4 C19"),
+ "C17": ("bounded symbolic execution (z3) of SupervisedOPF.learn (RNG draw symbolic, forked over every swap choice; numpy view/copy aliasing modelled), predict's relevance marking and prune, on symbolic weights with identifiable rows",
+         "train<=3-4, validation<=2, iterations<=2 (quick) / <=3 (thorough); one recorded known finding (validation set losing a class)", "4 C17"),
 }
 
 def main():
